@@ -53,7 +53,7 @@ def field_params(f):
         raise LostAnchor(f"MODULUS_LIMBS has {len(limbs)} limbs, expected {N64}")
     R = 1 << (64 * N64)
     p = dict(F=F, f=f, B=B, N64=N64, N32=N32, N8=N8, P=P, RINV=pow(R, -1, P), RMOD=R % P, R=R,
-             ZEROS64=", ".join(["0"] * N64), PM2=P - 2)
+             ZEROS64=", ".join(["0"] * N64), PM2=P - 2, RDIV64=R >> 64)
     _FP[f] = p
     return p
 
